@@ -20,9 +20,22 @@
    Composition over many carriers (section "multi-carrier composition" below): the premise of the two stream
    theorems — every packet handed to the receiving endpoint was queued from some one fresh carrier fed an honest
    cut stream — is PROVED over the server's carrier layer [srun] for every schedule (Proofs/CarrierMultiProofs.v,
-   Proofs/PacketPathMultiProofs.v); what remains as hypothesis is the schedule-level [honest_carriers] (the bytes
-   sent on every carrier that presented the ClientID are a prefix of an honest sender's stream), which the relay
-   section derives, one hop further out, from the model of the proxy's copyLoop (Model/CopyLoop.v). *)
+   Proofs/PacketPathMultiProofs.v); what remains there as hypothesis is the schedule-level [honest_carriers] (the bytes
+   sent on every carrier that presented the ClientID are a prefix of an honest sender's stream). The section "the relay
+   in the loop" at the end DERIVES it, one hop further out, from the model of the proxy's copyLoop (Model/CopyLoop.v):
+   if every such carrier's bytes are (a prefix of) what some relay run [cl_run] - any scripts, any schedule - wrote to
+   its server side while its client side handed it at most an honest carrier stream ([relayed_carriers]), then
+   [honest_carriers] holds (C01_relayed_carriers_honest), and the multi-carrier stream theorems are restated with
+   [relayed_carriers] as their only schedule hypothesis (…_multi_carrier_via_relay), both directions.
+   IDEALISATION in the relay model (atomic wake): Model/CopyLoop.v [wake] ends the copiers parked on a conn in the very
+   step that closes it, and so do the scripted conns of the correspondence driver
+   (harness/overlay/proxy/lib/zz_verif_copyloop_test.go wakeLocked). Go promises less: Close makes the pending Read/Write
+   fail, the copier goroutine returns from io.Copy some time later, and copyLoop (proxy/lib/snowflake.go) returns after its
+   two deferred Close calls WITHOUT joining the copiers. C01_relay_both_copiers_gone_at_return is therefore a theorem
+   about the idealised machine; what holds without the idealisation is stated and proved for the machine without the
+   atomic wake ([cl_run_lazy]): at the return both conns are closed, a copier still inside io.Copy leaves it at its next
+   step without moving a byte, and nothing is accepted after the return (C01_relay_*_no_atomic_wake). The byte-stream
+   theorems (prefix, closes, nothing late) do not depend on which of the two machines one takes for the copiers' exit. *)
 From Coq Require Import List NArith Bool Arith.
 From Snow Require Import Lib.Wire Model.Encap Proofs.EncapProofs Model.CarrierLayer Proofs.CarrierProofs Proofs.PacketPathProofs.
 From Snow Require Import Model.Redial Proofs.RedialProofs.
@@ -257,7 +270,7 @@ Qed.
    an error), ALL write scripts w0 w1 (short writes, write errors) of the two conns and ALL schedules of the two
    copiers, copyLoop's own goroutine, the shutdown channel and closes from outside:
    side 0 = c1 (the client's WebRTC conn), side 1 = c2 (the WebSocket to the server); direction d copies side d -> 1-d. *)
-From Snow Require Import Model.CopyLoop Proofs.CopyLoopProofs.
+From Snow Require Import Model.CopyLoop Proofs.CopyLoopProofs Proofs.CopyLoopLazyProofs.
 Open Scope N_scope.
 
 (* (a) what side 1-d accepted is a prefix of what side d handed out, which is a prefix of side d's script: nothing
@@ -318,9 +331,49 @@ Theorem C01_relay_inert_after_return : forall r0 w0 r1 w1 sched more,
   mn st = Returned -> view (cl_run (sched ++ more) (cl_init r0 w0 r1 w1)) = view st.
 Proof. exact returned_inert. Qed.
 
+(* IDEALISED (atomic wake, see the header): in [cl_run] the Close that copyLoop makes ends the copiers parked on that conn
+   in the same step, so both are gone at the return. Go's copyLoop does not join its copiers; what it guarantees is the
+   three …_no_atomic_wake theorems below. *)
 Theorem C01_relay_both_copiers_gone_at_return : forall r0 w0 r1 w1 sched,
   let st := cl_run sched (cl_init r0 w0 r1 w1) in mn st = Returned -> forall d, get_dir d st = Exited.
 Proof. exact returned_both_exited. Qed.
+
+(* WITHOUT the atomic wake ([cl_run_lazy]: a Close only marks the conn closed; a parked copier moves at its own next
+   step), for all scripts and schedules: when copyLoop has returned it has closed both conns, each exactly once; *)
+Theorem C01_relay_both_closed_at_return_no_atomic_wake : forall r0 w0 r1 w1 sched,
+  let st := cl_run_lazy sched (cl_init r0 w0 r1 w1) in
+  mn st = Returned -> forall s, s_closes (get_side s st) = 1%nat /\ closed (get_side s st) = true.
+Proof. exact lazy_returned_closed. Qed.
+
+(* a copier that is still inside io.Copy then (parked in a Read or Write) leaves it at its very next step - the call fails,
+   the conn being closed - and that step changes neither side (no byte moved, no script advanced, no Close) nor the other
+   copier: every copier terminates after at most one more step of its own; *)
+Theorem C01_relay_copier_exits_in_one_step_no_atomic_wake : forall r0 w0 r1 w1 sched,
+  let st := cl_run_lazy sched (cl_init r0 w0 r1 w1) in
+  mn st = Returned -> forall d,
+    get_dir d (cl_do_lazy st (Rel d)) = Exited /\
+    (forall s, get_side s (cl_do_lazy st (Rel d)) = get_side s st) /\
+    get_dir (negb d) (cl_do_lazy st (Rel d)) = get_dir (negb d) st /\
+    mn (cl_do_lazy st (Rel d)) = Returned.
+Proof. exact lazy_returned_one_step. Qed.
+
+(* and after the return nothing is accepted, handed out or closed, whatever steps follow. *)
+Theorem C01_relay_inert_after_return_no_atomic_wake : forall r0 w0 r1 w1 sched more,
+  let st := cl_run_lazy sched (cl_init r0 w0 r1 w1) in
+  mn st = Returned ->
+  mn (cl_run_lazy (sched ++ more) (cl_init r0 w0 r1 w1)) = Returned /\
+  forall s, side_view (get_side s (cl_run_lazy (sched ++ more) (cl_init r0 w0 r1 w1))) = side_view (get_side s st).
+Proof. exact lazy_returned_inert. Qed.
+
+(* non-vacuity, and the reason the stronger statement is NOT claimed of that machine: shutdown, the two closes, return -
+   and both copiers are still parked at their Read; one step each and they are gone, nothing else having changed *)
+Example C01_relay_copier_may_outlive_return_no_atomic_wake :
+  let st := cl_run_lazy [Shutdown; RelMain; RelMain] (cl_init [mk_ritem [1;2] CNone] [] [] []) in
+  mn st = Returned /\ get_dir false st = AtRead /\ get_dir true st = AtRead /\
+  s_closes (side0 st) = 1%nat /\ s_closes (side1 st) = 1%nat /\
+  let st' := cl_run_lazy [Rel false; Rel true] st in
+  get_dir false st' = Exited /\ get_dir true st' = Exited /\ s_in (side1 st') = [] /\ s_out (side0 st') = [].
+Proof. vm_compute. repeat split. Qed.
 
 Theorem C01_relay_nothing_late : forall r0 w0 r1 w1 sched, late (cl_run sched (cl_init r0 w0 r1 w1)) = (0%nat, 0%nat).
 Proof. exact late_zero. Qed.
@@ -393,4 +446,83 @@ Example C01_via_relay_example :
 Proof.
   eexists. split; [vm_compute; reflexivity|]. cbv zeta. split; [exists []; vm_compute; reflexivity|].
   split; [exists []; vm_compute; reflexivity|]. vm_compute. repeat split.
+Qed.
+
+(* ---------- the relay in the loop of the multi-carrier composition ----------
+   [C01_upstream_via_relay] above is about ONE relay feeding ONE fresh [pump]. The multi-carrier theorems take the
+   schedule hypothesis [honest_carriers]. Here the two are connected: [relayed_carriers ops cid sent] says that for every
+   carrier i of the schedule that presented [cid] there is a relay run - ANY read/write scripts of its two conns, ANY
+   schedule of its copiers, of copyLoop's closes, of shutdown and of outside closes - whose client side handed it (at
+   most) an honest carrier stream of packets of [sent], and the bytes the server was sent on carrier i are a prefix of
+   what that relay has written to its server side. *)
+From Snow Require Import Proofs.RelayMultiProofs.
+
+Theorem C01_relayed_carriers_honest : forall ops cid sent,
+  relayed_carriers ops cid sent -> honest_carriers ops cid sent.
+Proof. exact relayed_carriers_honest. Qed.
+
+Theorem C01_session_packets_are_senders_via_relay : forall ops cid sent p,
+  length cid = 8%nat -> relayed_carriers ops cid sent ->
+  In (p, cid) (surfaced (srun ops)) -> In p sent.
+Proof. exact session_packets_are_senders_via_relay. Qed.
+
+(* the stream theorems with client -> relay -> server carrier layer -> KCP composed: no premise about single carriers and
+   none about what reaches the server is left, only [relayed_carriers] (upstream) / what the server's endpoint wrote and
+   that each client read goes through some relay run fed (at most) a carrier's wire (downstream), and the ARQ hypothesis *)
+Theorem C01_upstream_stream_prefix_multi_carrier_via_relay :
+  forall (packets_of : bytes -> list bytes -> Prop) (stream_of : list bytes -> bytes),
+  (forall written sent recv, packets_of written sent -> (forall p, In p recv -> In p sent) ->
+     is_prefix (stream_of recv) written) ->
+  forall written sent cid ops recv,
+    length cid = 8%nat -> packets_of written sent -> relayed_carriers ops cid sent ->
+    (forall p, In p recv -> In (p, cid) (surfaced (srun ops))) ->
+    is_prefix (stream_of recv) written.
+Proof. exact upstream_stream_prefix_multi_via_relay. Qed.
+
+Theorem C01_downstream_stream_prefix_multi_carrier_via_relay :
+  forall (packets_of : bytes -> list bytes -> Prop) (stream_of : list bytes -> bytes),
+  (forall written sent recv, packets_of written sent -> (forall p, In p recv -> In p sent) ->
+     is_prefix (stream_of recv) written) ->
+  forall written sent cid ops recv,
+    packets_of written sent ->
+    (forall p, In (cid, p) (accepted (srun ops)) -> In p sent) ->
+    (forall p, In p recv -> exists i k r0 w0 r1 w1 sched sc,
+        nth_error (carriers (srun ops)) i = Some k /\ k_cid k = cid /\
+        is_prefix (script_data r1) (k_wire k) /\
+        In p (fst (read_stream (relay_to_client r0 w0 r1 w1 sched) sc))) ->
+    is_prefix (stream_of recv) written.
+Proof. exact downstream_stream_prefix_multi_via_relay. Qed.
+
+Theorem C01_upstream_stream_prefix_multi_carrier_via_relay_toy_arq : forall conv written sent cid ops recv,
+  length cid = 8%nat -> toy_packets_of conv written sent -> relayed_carriers ops cid sent ->
+  (forall p, In p recv -> In (p, cid) (surfaced (srun ops))) ->
+  is_prefix (toy_stream_of conv recv) written.
+Proof.
+  intros conv. exact (upstream_stream_prefix_multi_via_relay (toy_packets_of conv) (toy_stream_of conv) (toy_arq_safe conv)).
+Qed.
+
+(* non-vacuity: the two overlapping carriers of [c01_two_carriers], each behind its own relay run. Carrier 0's client
+   hands its relay the token, the ClientID and the first bytes in one Read and the rest (with EOF) in a second; the relay's
+   second Write to the server is short (3 of 4 bytes): the server was sent everything but the last byte. Carrier 1's relay
+   forwards one Read whole. [relayed_carriers] holds of the schedule, and what surfaces is the session's two packets. *)
+Example C01_relayed_carriers_example :
+  let c1 := [1;2;3;4;5;6;7;8] in
+  let sent := [[65;66;67]; [68;69]] in
+  relayed_carriers c01_two_carriers c1 sent /\
+  relay_to_server [mk_ritem (TOKEN ++ c1 ++ [131; 65; 66]) CNone; mk_ritem [67; 130; 68; 69] CEof] []
+                  [] [w_ok; mk_witem (Some 3%nat) false] [Rel false; Rel false; Rel false; Rel false]
+    = sent_on 0 c01_two_carriers /\
+  map fst (filter (tagged c1) (surfaced (srun c01_two_carriers))) = [[65;66;67]; [68;69]].
+Proof.
+  cbn zeta. split; [|vm_compute; repeat split].
+  intros i k Hk Hcid Hnp.
+  destruct i as [|[|[|i]]].
+  - exists [[65;66;67]; [68;69]], [131;65;66;67;130;68;69],
+      [mk_ritem (TOKEN ++ [1;2;3;4;5;6;7;8] ++ [131; 65; 66]) CNone; mk_ritem [67; 130; 68; 69] CEof], [],
+      [], [w_ok; mk_witem (Some 3%nat) false], [Rel false; Rel false; Rel false; Rel false].
+    split; [reflexivity|]. split; [intros p H; exact H|]. split; exists []; vm_compute; reflexivity.
+  - exists [[68;69]], [130;68;69], [mk_ritem (TOKEN ++ [1;2;3;4;5;6;7;8] ++ [130; 68; 69]) CNone], [], [], [], [Rel false; Rel false].
+    split; [reflexivity|]. split; [intros p [<-|[]]; right; left; reflexivity|]. split; exists []; vm_compute; reflexivity.
+  - exfalso. vm_compute in Hk. injection Hk as <-. vm_compute in Hcid. discriminate.
+  - exfalso. vm_compute in Hk. destruct i; discriminate.
 Qed.
